@@ -588,6 +588,7 @@ pub fn cases(args: &[String]) {
         v["index"] = json!(i);
         out.push(v);
     }
+    crate::util::wd_pause();
     println!("{}", json!({ "cases": out }));
 }
 
@@ -701,6 +702,51 @@ pub fn props(args: &[String]) {
         }
         tried += 2;
     }
+    // special hash values (0, 1, all-ones, 2^63, the golden-ratio and SplitMix constants) through the identity hasher:
+    // order independence of every unweighted sketcher on small sets built from them
+    {
+        let specials: [u64; 8] = [0, 1, u64::MAX, 1 << 63, 0x9E3779B97F4A7C15, 0xBF58476D1CE4E5B9, 0x94D049BB133111EB, 0x7FFFFFFFFFFFFFFF];
+        for m in [1usize, 4, 16, 64] {
+            for a in 0..specials.len() {
+                for b in 0..specials.len() {
+                    if a == b { continue; }
+                    tried += 1;
+                    let fwd = vec![specials[a], specials[b], 12345, 99];
+                    let bwd = vec![99u64, 12345, specials[b], specials[a]];
+                    crate::util::tick_idx(0, json!({"m": m, "items": vj(&fwd), "hasher": "NoHashHasher"}));
+                    let r = catch_unwind(AssertUnwindSafe(|| {
+                        let s1 = smh_sketch_of!(f64, NoHashHasher, m, vec![fwd.clone()]);
+                        let s2 = smh_sketch_of!(f64, NoHashHasher, m, bwd.iter().map(|x| vec![*x]).collect::<Vec<_>>());
+                        let t1 = smh2_sketch_of!(NoHashHasher, m, vec![fwd.clone()]);
+                        let t2 = smh2_sketch_of!(NoHashHasher, m, bwd.iter().map(|x| vec![*x]).collect::<Vec<_>>());
+                        let p = SetSketchParams::new(1.001, m as u64, 20., 65534);
+                        let mut k1 = SetSketcher::<u16, u64, NoHashHasher>::new(p, BuildHasherDefault::<NoHashHasher>::default());
+                        let mut k2 = SetSketcher::<u16, u64, NoHashHasher>::new(p, BuildHasherDefault::<NoHashHasher>::default());
+                        for x in &fwd { k1.sketch(x).unwrap(); }
+                        for x in &bwd { k2.sketch(x).unwrap(); }
+                        let d1 = dens_views!(OptDensMinHash, f64, NoHashHasher, m, &fwd, false);
+                        let d2 = dens_views!(OptDensMinHash, f64, NoHashHasher, m, &bwd, true);
+                        let e1 = dens_views!(RevOptDensMinHash, f64, NoHashHasher, m, &fwd, false);
+                        let e2 = dens_views!(RevOptDensMinHash, f64, NoHashHasher, m, &bwd, true);
+                        (s1 != s2, t1 != t2, k1.get_signature() != k2.get_signature(), d1 != d2, e1 != e2,
+                         d1.0.iter().chain(e1.0.iter()).any(|b| !(f64::from_bits(*b) < 1.0)))
+                    }));
+                    let inp = json!({"m": m, "items": vj(&fwd), "reversed": vj(&bwd), "hasher": "superminhasher::NoHashHasher"});
+                    match r {
+                        Err(_) => add("special-hash-panic", format!("a sketcher panics on the items {:?} through NoHashHasher (m={})", fwd, m), inp),
+                        Ok((a1, a2, a3, a4, a5, a6)) => {
+                            if a1 { add("smh-f64-order", format!("SuperMinHash<f64,u64,NoHashHasher> m={}: the set {:?} gives different sketches in the two orders", m, fwd), inp.clone()); }
+                            if a2 { add("smh2-order", format!("SuperMinHash2<NoHashHasher> m={}: the set {:?} gives different sketches in the two orders", m, fwd), inp.clone()); }
+                            if a3 { add("ss-order", format!("SetSketcher<u16,u64,NoHashHasher> m={}: the set {:?} gives different registers in the two orders", m, fwd), inp.clone()); }
+                            if a4 { add("optdens-order", format!("OptDensMinHash<f64,u64,NoHashHasher> m={}: the set {:?} gives different views in the two orders", m, fwd), inp.clone()); }
+                            if a5 { add("revdens-order", format!("RevOptDensMinHash<f64,u64,NoHashHasher> m={}: the set {:?} gives different views in the two orders", m, fwd), inp.clone()); }
+                            if a6 { add("dens-marker-hash", format!("a densified sketcher leaves a position unfilled on the items {:?} through NoHashHasher (m={})", fwd, m), inp.clone()); }
+                        }
+                    }
+                }
+            }
+        }
+    }
     // an item whose hash equals the empty-bin marker u64::MAX, first in its bin, then replaced by another item of the bin
     for m in [1usize, 2, 16] {
         tried += 1;
@@ -722,8 +768,14 @@ pub fn props(args: &[String]) {
     }
     for round in 0..n {
         crate::util::tick_idx(round as u64, serde_json::Value::Null);
-        let m = if rng.coin(0.5) { rng.range(1, 8) } else { rng.range(1, 256) } as usize;
-        let nitems = if rng.coin(0.3) { rng.range(1, 4) } else { rng.range(1, 200) } as usize;
+        let mut m = if rng.coin(0.5) { rng.range(1, 8) } else { rng.range(1, 256) } as usize;
+        let mut nitems = if rng.coin(0.3) { rng.range(1, 4) } else { rng.range(1, 200) } as usize;
+        // sizes suggested by the driver (new literals of a changed source file): sketch sizes / stream lengths around them
+        let xs = crate::util::extra_sizes();
+        if !xs.is_empty() && round < 14 {
+            if round % 2 == 0 { if let Some(v) = crate::util::near_size(&mut rng, &xs, 70_000) { m = v as usize; nitems = [1usize, 3, 12][round as usize % 3]; } }
+            else if let Some(v) = crate::util::near_size(&mut rng, &xs, 200_000) { nitems = v as usize; m = [8usize, 64, 300][round as usize % 3]; }
+        }
         let special = round % 5 == 0;
         let mut items: Vec<u64> = Vec::new();
         while items.len() < nitems {
@@ -736,6 +788,8 @@ pub fn props(args: &[String]) {
         let c2 = chunks(&mut rng, &re);
         tried += 1;
         let inp = json!({"m": m, "items": vj(&items), "rearranged": vj(&re), "chunks": c2.iter().map(|c| vj(c)).collect::<Vec<_>>()});
+        // densification probes about m^2 / (populated bins) bins: large sketch sizes only with enough items
+        let md = if m > 3000 && items.len() * 40 < m { 1 + m % 2999 } else { m };
         let r = catch_unwind(AssertUnwindSafe(|| {
             let mut v: Vec<(String, String)> = Vec::new();
             let mut reinit_inputs: Vec<Value> = Vec::new();
@@ -863,12 +917,12 @@ pub fn props(args: &[String]) {
                 macro_rules! dens_reinit {
                     ($S:ident, $key:expr) => {{
                         for finished in [true, false] {
-                            let mut d = $S::<f64, u64, FnvHasher>::new(m, BuildHasherDefault::<FnvHasher>::default());
+                            let mut d = $S::<f64, u64, FnvHasher>::new(md, BuildHasherDefault::<FnvHasher>::default());
                             for it in &prev { d.sketch(it); }
                             if finished { let _ = d.end_sketch(); }
                             d.reinit();
                             let r = catch_unwind(AssertUnwindSafe(|| { for it in &next { d.sketch(it); } let _ = d.end_sketch(); (d.get_hsketch().iter().map(|x| x.to_bits() as u64).collect::<Vec<u64>>(), d.get_hsketch_u64()) }));
-                            let (ff, fu, _) = dens_views!($S, f64, FnvHasher, m, &next, false);
+                            let (ff, fu, _) = dens_views!($S, f64, FnvHasher, md, &next, false);
                             match r {
                                 Err(_) => { v.push(($key.into(), format!("{}: after {} item(s){} and reinit, sketching {} item(s) and end_sketch panics (m={})", stringify!($S), prev.len(), if finished { ", end_sketch" } else { "" }, next.len(), m))); reinit_inputs.push(hist.clone()); }
                                 Ok((gf, gu)) => if gf != ff || gu != fu {
@@ -884,7 +938,7 @@ pub fn props(args: &[String]) {
                 // a finished densified sketch may be streamed further and finished again (C09)
                 macro_rules! dens_resume {
                     ($S:ident) => {{
-                        let mut d = $S::<f64, u64, FnvHasher>::new(m, BuildHasherDefault::<FnvHasher>::default());
+                        let mut d = $S::<f64, u64, FnvHasher>::new(md, BuildHasherDefault::<FnvHasher>::default());
                         let r = catch_unwind(AssertUnwindSafe(|| {
                             for it in &prev { d.sketch(it); }
                             let _ = d.end_sketch();
@@ -926,8 +980,8 @@ pub fn props(args: &[String]) {
                 macro_rules! slice_vs_itemwise {
                     ($S:ident) => {{
                         let r = catch_unwind(AssertUnwindSafe(|| {
-                            let mut d1 = $S::<f64, u64, FnvHasher>::new(m, BuildHasherDefault::<FnvHasher>::default());
-                            let mut d2 = $S::<f64, u64, FnvHasher>::new(m, BuildHasherDefault::<FnvHasher>::default());
+                            let mut d1 = $S::<f64, u64, FnvHasher>::new(md, BuildHasherDefault::<FnvHasher>::default());
+                            let mut d2 = $S::<f64, u64, FnvHasher>::new(md, BuildHasherDefault::<FnvHasher>::default());
                             for it in &items[..cut] { d1.sketch(it); d2.sketch(it); }
                             if finish_first && cut > 0 { let _ = d1.end_sketch(); let _ = d2.end_sketch(); }
                             let _ = d1.sketch_slice(&items[cut..]);
@@ -951,17 +1005,17 @@ pub fn props(args: &[String]) {
                 slice_vs_itemwise!(RevOptDensMinHash);
             }
             // densified sketchers: item-wise + end_sketch (twice) = one slice; order free; views
-            let (f1, u1, w1) = dens_views!(OptDensMinHash, f32, IdHasher, m, &items, true);
-            let (f2, u2, w2) = dens_views!(OptDensMinHash, f32, IdHasher, m, &re, false);
+            let (f1, u1, w1) = dens_views!(OptDensMinHash, f32, IdHasher, md, &items, true);
+            let (f2, u2, w2) = dens_views!(OptDensMinHash, f32, IdHasher, md, &re, false);
             if (f1.clone(), u1.clone(), w1.clone()) != (f2, u2, w2) { v.push(("optdens-order".into(), format!("OptDensMinHash<f32> views depend on order / repetition / item-wise vs slice (m={}, {} items)", m, items.len()))); }
-            let (g1, x1, y1) = dens_views!(RevOptDensMinHash, f64, FnvHasher, m, &items, true);
-            let (g2, x2, y2) = dens_views!(RevOptDensMinHash, f64, FnvHasher, m, &re, false);
+            let (g1, x1, y1) = dens_views!(RevOptDensMinHash, f64, FnvHasher, md, &items, true);
+            let (g2, x2, y2) = dens_views!(RevOptDensMinHash, f64, FnvHasher, md, &re, false);
             if (g1.clone(), x1.clone(), y1.clone()) != (g2, x2, y2) { v.push(("revdens-order".into(), format!("RevOptDensMinHash<f64> views depend on order / repetition / item-wise vs slice (m={}, {} items)", m, items.len()))); }
             for (u, f, w, name, hs) in [(&u1, &f1, &w1, "OptDensMinHash", items.clone()), (&x1, &g1, &y1, "RevOptDensMinHash", hashes.clone())] {
                 if u.iter().any(|h| !hs.contains(h)) { v.push(("dens-foreign".into(), format!("{}: a position of the u64 view is not the hash of a streamed item (m={})", name, m))); }
-                for p in 0..m { for q in 0..m { if u[p] == u[q] && (f[p] != f[q] || w[p] != w[q]) {
+                for p in 0..md.min(400) { for q in 0..md.min(400) { if u[p] == u[q] && (f[p] != f[q] || w[p] != w[q]) {
                     v.push(("dens-views".into(), format!("{}: positions {} and {} agree in the u64 view but not in the float / u32 view", name, p, q))); } } }
-                for p in 0..m {
+                for p in 0..md {
                     let x = murmur3::murmur3_32(&mut std::io::Cursor::new(u[p].to_ne_bytes()), 127).unwrap();
                     if x != w[p] { v.push(("dens-u32".into(), format!("{}: the u32 view is not murmur3_32(seed 127) of the u64 view at position {}", name, p))); }
                 }
@@ -998,6 +1052,7 @@ pub fn props(args: &[String]) {
             add("dens-empty-hang", format!("{} on a sketcher where nothing was streamed does not return", name), json!({"m": 4, "call": name}));
         }
     }
+    crate::util::wd_pause();
     println!("{}", json!({"tried": tried, "found": found}));
 }
 
@@ -1045,5 +1100,6 @@ pub fn mc(args: &[String]) {
             }
         }
     }
+    crate::util::wd_pause();
     println!("{}", json!({"found": found}));
 }
